@@ -236,6 +236,68 @@ def colliding_name(target_rel, r):
         i += 1
 
 
+_DECOY_SEARCH = r"""
+import sys
+first, stem = sys.argv[1], sys.argv[2]
+v = str(hash(first + " Cmpt Exec") % 65535)
+for i in range(3000000):
+    n = f"{stem}_{i}"
+    if str(hash(n + " Cmpt Exec") % 65535).endswith(v):
+        print(n); break
+"""
+
+
+def _perf_table(rows):
+    lines = ["[DeepRT] ===== Perf BEGIN =====", "====== Perf Summary ======", "~~~~ Ideal/Total Cycles ~~~~", "-" * 91,
+             "Name" + " " * 76 + "Ideal Cy.", "-" * 91]
+    lines += [f"{n}-opCatConv_fp16".ljust(80) + f"{c}".ljust(15) for n, c in rows]
+    lines += ["-" * 91, f"Total\t\t\t\t\t\t\t\t\t\t{sum(c for _, c in rows)}", "-" * 91,
+              "====== Perf Summary End ======", "[DeepRT] ===== Perf END ====="]
+    return lines
+
+
+def multi_table_case(work):
+    """a compiler log with TWO ideal-cycle tables (two graphs of one model): the job's own, and one whose first kernel is a
+    different name chosen so that - IF kernel names enter the table fingerprint through Python's seeded str hash - its
+    fingerprint text matches the job's under hash seed 1 only.  Returns a failure record or None."""
+    import random
+    d = os.path.join(work, "mt")
+    rr = random.Random(11)
+    s = scenario.gen_scenario(rr, ranks=1, kernels=6, host=2, wraps=False)
+    os.makedirs(os.path.join(d, "in"))
+    fn = list(s.files)[0]
+    json.dump(s.files[fn], open(os.path.join(d, "in", fn), "w"))
+    ex = sorted((t for t in s.truth.values() if t["kind"] == "Cmpt Exec"), key=lambda t: t["start"])
+    seq = [t["name"].rsplit(" Cmpt Exec", 1)[0] for t in ex]
+    t_obs = float(sum(t["end"] - t["start"] for t in ex))
+    core = 1100.0
+    decoy = subprocess.run(["/venv/bin/python", "-c", _DECOY_SEARCH, seq[0], seq[0] + "_v"],
+                           env=dict(os.environ, PYTHONHASHSEED="1"), capture_output=True, text=True,
+                           timeout=300).stdout.strip()
+    if not decoy:
+        return None
+    c_own = max(1, int(t_obs * core * 0.5 / len(seq)))
+    c_other = max(1, int(t_obs * core * 0.9 / len(seq)))
+    rows_own = [(n, c_own) for n in seq]
+    rows_other = [(decoy, c_other)] + [(n, c_other) for n in seq[1:]]
+    log_text = "\n".join(_perf_table(rows_other) + _perf_table(rows_own)) + "\n"
+    open(os.path.join(d, "in", "comp.log"), "w").write(log_text)
+    res = {}
+    for sd in ("0", "1"):
+        os.makedirs(os.path.join(d, "out_" + sd))
+        rc, err = cli(d, ["-i", "in/" + fn, "-o", f"out_{sd}/o.json", "-c", "in/comp.log", "-D", "0", "--freq",
+                          f"{s.freq}:{core}"], sd)
+        res[sd] = (rc, canon(os.path.join(d, "out_" + sd)))
+    if res["0"] != res["1"]:
+        diff = [k for k in res["0"][1] if res["1"][1].get(k) != res["0"][1][k]]
+        return {"input": {"files": s.files, "freq": s.freq, "opts": ["-c", "@LOG"], "log_text": log_text,
+                          "variant": "seed1", "seeds": ["0", "1"], "core": core},
+                "expected": "identical traceEvents and CSVs for hash seeds 0 and 1",
+                "observed": {"rc": [res["0"][0], res["1"][0]], "differing_files": diff[:4]},
+                "signature": {"kind": "differs_between_hash_seeds", "multi_table_compiler_log": True}}
+    return None
+
+
 def run(ctx):
     r = ctx.rng
     work = tempfile.mkdtemp(prefix="c14_", dir=ctx.work)
@@ -305,6 +367,15 @@ def run(ctx):
                                   "signature": {"kind": kind}})
             if len(samples) < 2:
                 samples.append({"opts": opts, "summary": s.summary()})
+
+        # ---------------- hash used as data (table fingerprints): one fixed two-table compiler log
+        try:
+            f_mt = multi_table_case(work)
+            dist["multi_table_log_cases"] = 1
+            if f_mt:
+                fails.append(f_mt)
+        except Exception as e:  # noqa: BLE001
+            ctx.notes.append("multi_table_case failed to run: " + repr(e)[:200])
 
         # ---------------- histories: one Python process, documented API
         nh = ctx.pick(24, 300)
